@@ -189,3 +189,14 @@ impl<'p> Program<'p> {
     pub(in crate::program) fn kstub_maybe_gc(&mut self) {}
 }
 
+
+impl<'p> ObjectData<'p> {
+    /// Stub for `ObjectData::get_fields_order` in harnesses whose subject is a CONSUMER of the field order (object
+    /// equality, the manifesters): the harness objects carry the sorted field list in the `fields_order` cache, as
+    /// every object does after its first use, and the stub returns the cached list. The computation of the list
+    /// (sorting, visibility resolution across layers) is the subject of the C07 harnesses; it costs CBMC ~10 min
+    /// per object and is not repeated in every consumer.
+    pub(in crate::program) fn kstub_get_fields_order_cached(&self) -> &[(InternedStr<'p>, ast::Visibility)] {
+        self.fields_order.get().expect("harness objects carry a cached field order")
+    }
+}
